@@ -15,3 +15,26 @@ Theorem C09_text_wide_eq_bytes : forall f1 f2 w ptr st depth,
   sk_scan f1 w ptr st depth = sk_scan_bytes f2 w ptr st depth.
 Proof. exact sk_scan_wide_eq_bytes. Qed.
 Print Assumptions C09_text_wide_eq_bytes.
+
+(* 2. On a single window that holds the whole remaining input the byte scan IS the byte-level
+   reference: it finishes at [adv] exactly when the reference lands [adv - ptr] bytes further, and
+   asks for more data (which, at the end of the input, is the Eof error) exactly when the
+   reference finds no matching close. *)
+Theorem C09_text_scan_ref : forall fuel w ptr st d,
+  ptr <= length w -> length w - ptr < fuel ->
+  match sk_scan_bytes fuel w ptr st d with
+  | SkDone adv => ptr < adv <= length w /\ sref (skipn ptr w) st d 0 = Some (adv - ptr)
+  | SkRefill _ _ _ => sref (skipn ptr w) st d 0 = None
+  | SkCrash _ => False
+  end.
+Proof. exact scan_ref_whole. Qed.
+Print Assumptions C09_text_scan_ref.
+
+Theorem C09_text_scan_skip_ref : forall fuel w, length w < fuel ->
+  match sk_scan_bytes fuel w 0 SkNone 1%Z with
+  | SkDone adv => skip_ref w = Some adv /\ 0 < adv <= length w
+  | SkRefill _ _ _ => skip_ref w = None
+  | SkCrash _ => False
+  end.
+Proof. exact scan_whole_skip_ref. Qed.
+Print Assumptions C09_text_scan_skip_ref.
